@@ -270,6 +270,28 @@ func (s *Solver) Check() SatResult {
 	case "unsat":
 		return Unsat
 	}
+	if line == "unknown" || line == "timeout" {
+		// the per-query time limit is wall-clock: on a loaded machine a query that normally takes a second
+		// can run out of it. One more attempt with a six times longer limit before the path is inconclusive.
+		long, short := "(set-option :timeout 120000)\n", "(set-option :timeout 20000)\n"
+		if strings.HasPrefix(*flagSolver, "cvc5") {
+			long, short = "(set-option :tlimit-per 120000)\n", "(set-option :tlimit-per 20000)\n"
+		}
+		t1 := time.Now()
+		s.send(long + "(check-sat)\n")
+		s.in.Flush()
+		line2 := s.readLine()
+		s.send(short)
+		s.Queries++
+		s.Time += time.Since(t1)
+		switch line2 {
+		case "sat":
+			return Sat
+		case "unsat":
+			return Unsat
+		}
+		line = line2
+	}
 	if s.log != nil {
 		fmt.Fprintf(s.log, "; solver said: %s\n", line)
 	}
